@@ -296,4 +296,36 @@ Definition check_pcase (c : pcase) : bool :=
   opt_pair_eqb (option_map (fun p => (S p, S p)) p) oa &&
   opt_pair_eqb (option_map (fun p => (p, S p)) p) oo.
 
+(* ------------------------------------------------------------------------------------------ *)
+(* Model B' (callback purity of the seeding side): the three entry points of DynamicConstantProvider
+   that instrumented code calls.  A runtime value is abstracted to its class; "Sub" = instance of a
+   subclass (its methods and operators may be user-defined), VOther = any other object. *)
+Inductive vclass := VStr | VBytes | VNum | VSubStr | VSubBytes | VSubNum | VOther.
+Definition user_defined (c : vclass) : bool :=
+  match c with VStr | VBytes | VNum => false | _ => true end.
+
+Inductive entry := EAddValue | EAddForStrings | EAddConcat.
+
+(* which operands get an operator / method applied by the provider *)
+Definition touches (e : entry) (a b : vclass) : list vclass :=
+  match e with
+  | EAddValue => []                                        (* type(value) in ConstantTypes: no method call *)
+  | EAddForStrings => match a with VStr => [VStr] | _ => [] end   (* value.isX()/upper()/lower(), exact str only *)
+  | EAddConcat => match a, b with
+                  | VStr, VStr => [VStr; VStr]
+                  | VBytes, VBytes => [VBytes; VBytes]
+                  | _, _ => [] end                        (* first + second, same exact string type only *)
+  end.
+
+Definition stores (e : entry) (a b : vclass) : bool :=
+  match e with
+  | EAddValue => negb (user_defined a) | EAddForStrings => match a with VStr => true | _ => false end
+  | EAddConcat => match touches EAddConcat a b with [] => false | _ => true end end.
+
+(* observation of the real provider: (something was added to the pool, a user-defined method ran, it raised) *)
+Definition pvcase := (entry * vclass * vclass * (bool * bool * bool))%type.
+Definition check_pvcase (c : pvcase) : bool :=
+  let '(e, a, b, (st, usr, rs)) := c in
+  Bool.eqb st (stores e a b) && Bool.eqb usr (existsb user_defined (touches e a b)) && negb rs.
+
 End C01.
